@@ -31,6 +31,11 @@ func (s *Store) maxSizeEnforcer(maxSize int64) {
 			for curSize > maxSize {
 				// Remove oldest message.
 				el := all.Front()
+				if el == nil {
+					// Everything still accounted for has already left its mailbox; the pending
+					// removals will bring curSize down.
+					break
+				}
 				all.Remove(el)
 				m := el.Value.(*Message)
 				if s.removeMessage(m.mailbox, m.id) != nil {
